@@ -159,7 +159,7 @@ func init() {
 				}
 			}
 		}
-		return p.tc.Bool(okAll && seen > 0 && held == 0)
+		return p.tc.Bool(okAll && held == 0)
 	})
 	reg(vfPkg+".UF", func(p *Path, fn *ssa.Function, args []Value) Value {
 		name, _ := p.concreteString(args[0].(*SliceV))
@@ -385,34 +385,94 @@ func init() {
 		return &StructV{Typ: tt, Fields: []Value{wall, ext, &PtrV{}}}
 	})
 	reg("time.Now", func(p *Path, fn *ssa.Function, args []Value) Value {
-		// the clock: arbitrary non-decreasing instants with one-second granularity
-		// (sub-second parts make every later comparison a 64-bit bit-twiddling chain
-		// that the solver does not finish; all timeouts in the code are whole seconds)
 		tc := p.tc
-		sec := p.fresh("now_sec", BV(64))
-		p.inputs = append(p.inputs, &InputRec{Kind: "int", term: sec, Name: sec.Name, Env: true})
-		p.pinInput(len(p.inputs) - 1)
-		if p.guard != nil {
-			panic(mergeAbort{"time.Now in merge region"})
-		}
-		p.note("time.Now = arbitrary non-decreasing instants, whole seconds")
-		p.assertPC(tc.And(tc.Slt(tc.Const(64, 0), sec), tc.Slt(sec, tc.Const(64, 1<<40))))
-		if last, ok := p.ghost["now"]; ok {
-			p.assertPC(tc.Sle(last.(*Term), sec))
-		}
-		if p.ghost == nil {
-			p.ghost = map[string]Value{}
-		}
-		p.ghost["now"] = sec
+		sec := p.nowSec()
 		tt := fn.Signature.Results().At(0).Type()
 		return &StructV{Typ: tt, Fields: []Value{tc.Const(64, 0), tc.BvAdd(sec, tc.Const(64, 62135596800)), &PtrV{}}}
 	})
 
+	// time.Since / time.Until: the duration is a fresh value tied to the whole-second
+	// difference by exact threshold lemmas (no 64-bit multiplication by 10^9 reaches the solver)
+	sinceUntil := func(until bool) intrinsicFn {
+		return func(p *Path, fn *ssa.Function, args []Value) Value {
+			tc := p.tc
+			nowSec := p.nowSec()
+			t := args[0].(*StructV)
+			wall, ext := t.Fields[0].(*Term), t.Fields[1].(*Term)
+			// whole-second instants only
+			if p.guard != nil {
+				panic(mergeAbort{"time.Since in merge region"})
+			}
+			p.assume(tc.Eq(tc.BvAnd(wall, tc.Const(64, 1<<30-1)), tc.Const(64, 0)))
+			p.assume(tc.Eq(tc.BvAnd(wall, tc.Const(64, 1<<63)), tc.Const(64, 0)))
+			p.note("time.Since/Until: instants are whole seconds; the duration is exact at the thresholds 0, 1s, 1m, 10m, 1h, 24h and unconstrained in between")
+			tsec := tc.BvSub(ext, tc.Const(64, 62135596800))
+			var sdiff *Term
+			if until {
+				sdiff = tc.BvSub(tsec, nowSec)
+			} else {
+				sdiff = tc.BvSub(nowSec, tsec)
+			}
+			p.assume(tc.And(tc.Slt(tc.Const(64, uint64(1<<33)).neg(tc), sdiff), tc.Slt(sdiff, tc.Const(64, 1<<33))))
+			d := p.fresh("dur", BV(64))
+			for _, ks := range []int64{0, 1, 60, 600, 3600, 86400} {
+				k := tc.Const(64, uint64(ks*1000000000))
+				kk := tc.Const(64, uint64(ks))
+				p.assertPC(tc.Eq(tc.Slt(k, d), tc.Slt(kk, sdiff)))
+				p.assertPC(tc.Eq(tc.Slt(d, k), tc.Slt(sdiff, kk)))
+			}
+			return d
+		}
+	}
+	reg("time.Since", sinceUntil(false))
+	reg("time.Until", sinceUntil(true))
+	reg(vfPkg+".TimeSec", func(p *Path, fn *ssa.Function, args []Value) Value {
+		// an arbitrary whole-second wall-clock instant (or the zero Time when the harness says so)
+		tc := p.tc
+		sec := p.fresh("in_int", BV(64))
+		p.addInput("int", sec)
+		p.assume(tc.And(tc.Slt(tc.Const(64, 0), sec), tc.Slt(sec, tc.Const(64, 1<<40))))
+		tt := fn.Signature.Results().At(0).Type()
+		return &StructV{Typ: tt, Fields: []Value{tc.Const(64, 0), tc.BvAdd(sec, tc.Const(64, 62135596800)), &PtrV{}}}
+	})
 	reg("time.After", func(p *Path, fn *ssa.Function, args []Value) Value {
 		// a timer channel that may fire: one buffered tick (select explores both outcomes)
 		p.objN++
 		tt := fn.Signature.Results().At(0).Type().Underlying().(*types.Chan).Elem()
 		return &ChanV{ID: p.objN, Name: "timer", Buf: []Value{p.zero(tt)}}
+	})
+
+	// ----- reflect (only the nil test used by mgr.NewGroup) -----
+	reg("reflect.ValueOf", func(p *Path, fn *ssa.Function, args []Value) Value {
+		return &ReflectV{V: args[0]}
+	})
+	reg("(reflect.Value).IsNil", func(p *Path, fn *ssa.Function, args []Value) Value {
+		rv, ok := args[0].(*ReflectV)
+		if !ok {
+			p.unsupported("reflect.Value.IsNil on a value not produced by reflect.ValueOf")
+		}
+		iv, ok := rv.V.(*IfaceV)
+		if !ok || iv.Typ == nil {
+			p.obligation(p.tc.False, "panic", "reflect-isnil", "reflect: call of reflect.Value.IsNil on zero Value")
+			p.end("gopanic", "reflect IsNil on zero Value")
+		}
+		switch x := iv.Val.(type) {
+		case *PtrV:
+			return p.tc.Bool(x.Obj == nil)
+		case *MapV:
+			return p.tc.Bool(x.M == nil)
+		case *SliceV:
+			return p.tc.Bool(x.Obj == nil)
+		case *FuncV:
+			return p.tc.Bool(x.Fn == nil && x.Builtin == "")
+		case *ChanV:
+			return p.tc.Bool(x == nil)
+		case *IfaceV:
+			return p.tc.Bool(x.Typ == nil)
+		}
+		p.obligation(p.tc.False, "panic", "reflect-isnil", "reflect: call of reflect.Value.IsNil on non-nillable value")
+		p.end("gopanic", "reflect IsNil on non-nillable")
+		return nil
 	})
 
 	// ----- crypto/rand -----
@@ -479,6 +539,16 @@ func init() {
 	})
 	reg("crypto/internal/constanttime.boolToUint8", func(p *Path, fn *ssa.Function, args []Value) Value {
 		return p.tc.Ite(args[0].(*Term), p.tc.Const(8, 1), p.tc.Const(8, 0))
+	})
+	reg("slices.overlaps", func(p *Path, fn *ssa.Function, args []Value) Value {
+		a, b := args[0].(*SliceV), args[1].(*SliceV)
+		if a.Obj == nil || b.Obj == nil || a.Obj != b.Obj {
+			return p.tc.False
+		}
+		tc := p.tc
+		// same backing store: [aOff, aOff+aLen) and [bOff, bOff+bLen) intersect
+		return tc.And(tc.And(tc.Ult(tc.Const(64, 0), a.Len), tc.Ult(tc.Const(64, 0), b.Len)),
+			tc.And(tc.Ult(a.Off, tc.BvAdd(b.Off, b.Len)), tc.Ult(b.Off, tc.BvAdd(a.Off, a.Len))))
 	})
 	reg("internal/abi.NoEscape", func(p *Path, fn *ssa.Function, args []Value) Value { return args[0] })
 	reg("internal/abi.Escape", func(p *Path, fn *ssa.Function, args []Value) Value { return args[0] })
@@ -584,3 +654,27 @@ func (p *Path) errorsIsUnwrap(e *IfaceV, target Value, depth int) *Term {
 }
 
 var _ = fmt.Sprintf
+
+// nowSec reads the clock: arbitrary non-decreasing instants with one-second
+// granularity (sub-second parts make every later comparison a 64-bit
+// bit-twiddling chain that the solver does not finish; all timeouts in the
+// code are whole seconds).
+func (p *Path) nowSec() *Term {
+	tc := p.tc
+	sec := p.fresh("now_sec", BV(64))
+	p.inputs = append(p.inputs, &InputRec{Kind: "int", term: sec, Name: sec.Name, Env: true})
+	p.pinInput(len(p.inputs) - 1)
+	if p.guard != nil {
+		panic(mergeAbort{"time.Now in merge region"})
+	}
+	p.note("time.Now = arbitrary non-decreasing instants, whole seconds")
+	p.assertPC(tc.And(tc.Slt(tc.Const(64, 0), sec), tc.Slt(sec, tc.Const(64, 1<<40))))
+	if last, ok := p.ghost["now"]; ok {
+		p.assertPC(tc.Sle(last.(*Term), sec))
+	}
+	if p.ghost == nil {
+		p.ghost = map[string]Value{}
+	}
+	p.ghost["now"] = sec
+	return sec
+}
